@@ -505,13 +505,18 @@ func c03RecorderInternals(c *Ctx, fn *ssa.Function, recorder *ssa.Alloc, resultC
 			if okVal != nil && p.boolFromFacts(p.FactsAt(b), okVal) == yesTri {
 				continue
 			}
-			recorded := p.mustPrecede(ret, func(in ssa.Instruction) bool {
+			// judged per path: a path to the return is fine when it takes an edge on which ok==true is
+			// established (`if ok { return }; record` and `if !ok { record }` differ only in whether the
+			// two paths share the return block) or passes a recording call
+			recorded := p.pfMustPrecedeOrEdge(ret, func(in ssa.Instruction) bool {
 				cv, isCall := in.(*ssa.Call)
 				if !isCall {
 					return false
 				}
 				cl := staticCallee(cv.Common())
 				return cl != nil && len(cv.Common().Args) > 0 && cv.Common().Args[0] == ssa.Value(callee.Params[0]) && p.c03RecordsFailure(cl, 2)
+			}, func(from, to *ssa.BasicBlock) bool {
+				return okVal != nil && p.boolFromFacts(p.FactsOnEdge(from, to), okVal) == yesTri
 			})
 			if !recorded {
 				bad2 = append(bad2, "return at "+p.IPos(ret)+" is reachable with ok==false without recording a failure")
@@ -665,7 +670,8 @@ func c03r4(c *Ctx) {
 			}
 		}
 		n := 0
-		for _, rc := range p.pfReturnCases(fn) {
+		// the status decision tree may live in an extracted helper: its returns are judged in place
+		for _, rc := range p.mwExpandResult(p.pfReturnCases(fn), piFn) {
 			if !p.pfPossiblyNil(rc.Results[eiFn]) {
 				continue
 			}
@@ -889,4 +895,60 @@ func c03r5(c *Ctx) {
 			}
 		}
 	}
+}
+
+// pfMustPrecedeOrEdge: every path from the function entry to `site` executes an instruction
+// satisfying match before site, or takes a CFG edge for which edgeOK holds (an edge that establishes
+// the fact under which nothing is required). Judging edges instead of the block that contains the
+// site makes the verdict independent of whether the excused path has a return of its own or joins
+// the other paths before a shared return.
+func (p *Program) pfMustPrecedeOrEdge(site ssa.Instruction, match func(ssa.Instruction) bool, edgeOK func(from, to *ssa.BasicBlock) bool) bool {
+	fn := site.Parent()
+	sb := site.Block()
+	for _, in := range sb.Instrs {
+		if in == site {
+			break
+		}
+		if match(in) {
+			return true
+		}
+	}
+	contains := map[*ssa.BasicBlock]bool{}
+	holdsOut := map[*ssa.BasicBlock]bool{}
+	for _, b := range fn.Blocks {
+		for _, in := range b.Instrs {
+			if match(in) {
+				contains[b] = true
+				break
+			}
+		}
+		holdsOut[b] = true // greatest fixpoint
+	}
+	entry := fn.Blocks[0]
+	holdsOut[entry] = contains[entry]
+	holdsIn := func(b *ssa.BasicBlock) bool {
+		if b == entry || len(b.Preds) == 0 {
+			return false
+		}
+		for _, pr := range b.Preds {
+			if !holdsOut[pr] && !edgeOK(pr, b) {
+				return false
+			}
+		}
+		return true
+	}
+	for changed := true; changed; {
+		changed = false
+		for _, b := range fn.Blocks {
+			if b == entry {
+				continue
+			}
+			v := contains[b] || holdsIn(b)
+			if v != holdsOut[b] {
+				holdsOut[b] = v
+				changed = true
+			}
+		}
+	}
+	return holdsIn(sb)
 }
